@@ -107,6 +107,11 @@ CHECKS = {
         "note": "Trusted: TLC, version table from fresh objects (relative 1e-9), numpy layout constructors. Known findings: stale eta memo; bath copy closing over the original object.",
         "technique": "TLA+ object/aliasing model + TLC over histories; spec->code replay with version decoding; layout and mutation enumeration per API",
     },
+    "C04": {
+        "text": "Physical.tla enumerates the discrete configuration space (method x memory setting x degeneracy reduction x dimension x kind of system x coupling class up to alpha = 1.5 x temperature class x kind of initial state; 1535 configurations) and acts as a monitor: every run of the real code (Tempo, PtTempo+compute_dynamics, MeanFieldTempo, PtTebd with a PT-TEMPO process tensor, GibbsTempo; continuous parameters drawn from VERIF_SEED) is recorded as a trace of per-step deviations quantised in units of the admissible tolerance, and TLC consumes every record of every run and evaluates the invariant at every step: Hermitian and unit trace always, positive semidefinite only with full memory, chain norm one, Gibbs state normalised/Hermitian/positive.",
+        "note": "Trusted: TLC as monitor, quantisation in the harness. The admissible deviation 30 * epsrel * (step+1) is a parameter, not derived (largest observed deviation on the unchanged tree: 12 % of it over all 1535 configurations). Physicality is a weak oracle for numerical values: the exact-probe checks C01-C03 carry that load.",
+        "technique": "TLA+ configuration generator + TLC trace validation (monitor) of recorded per-step projections",
+    },
 }
 for e in ENGINES:
     e["serves_properties"] = sorted(CHECKS)
